@@ -157,8 +157,12 @@ pub fn inproc_cell(spec: &Value) -> Value {
         let touts: Vec<u64> = spec["timeouts"].as_array().unwrap().iter().map(|x| x.as_u64().unwrap()).collect();
         let lens: Vec<usize> = spec["lens"].as_array().unwrap().iter().map(|x| x.as_u64().unwrap() as usize).collect();
         let mut seq = 0;
-        for &ws in &wss {
+        let budget = Budget::new();
+        'cell: for &ws in &wss {
             for &len in &lens {
+                if budget.over(&mut c) {
+                    break 'cell;
+                }
                 for &t in &touts {
                     for upload in [false, true] {
                         seq += 1;
